@@ -11,6 +11,7 @@ The implementation's double representation of structs (member map + flattened va
 the generator stays inside the fragment where main and the model agree and every excluded form is a recorded
 known finding that is re-confirmed on every run.
 """
+import copy
 import json
 import os
 import random
@@ -30,8 +31,7 @@ ARRAYS = {"A3": ("int", 3), "PS": ("P", 2)}
 # variables of the graph, in location order (location index = position)
 VARS = [("a", "P"), ("b", "P"), ("ps", "PS"), ("g", "A3"), ("h", "A3"), ("n", "int"), ("m", "int"), ("e", "In"),
         ("pp", "*P"), ("pin", "*In"), ("pi", "*int")]
-VTYPE = dict(VARS)
-VLOC = {n: i for i, (n, _) in enumerate(VARS)}
+NV = len(VARS)
 
 
 def cb_type(t):
@@ -49,7 +49,6 @@ def children(t):
 
 
 def leaves(t, pre=()):
-    """all scalar leaf paths (tuples of child indices) of type t"""
     ch = children(t)
     if not ch:
         return [pre]
@@ -69,18 +68,26 @@ def zero(t):
 
 
 # ------------------------------------------------------------------ access expressions
-# ("v", name) | ("par", i) | ("f", a, k) | ("d", a)
+# ("v", loc) | ("par", i) | ("f", a, k) | ("d", a)      (lists after a JSON round trip)
 
-def mk_path(root, path):
-    a = root
-    for k in path:
-        a = ("f", a, k)
-    return a
+def tup(a):
+    """normalise an access expression read back from JSON (lists) to tuples"""
+    if a is None:
+        return None
+    if a[0] in ("v", "par"):
+        return (a[0], a[1])
+    if a[0] == "f":
+        return ("f", tup(a[1]), a[2])
+    return ("d", tup(a[1]))
+
+
+def vname(loc):
+    return VARS[loc][0] if loc < NV else "c%d" % loc
 
 
 class TypeEnv:
-    def __init__(self, vtypes, ptypes=()):
-        self.vt, self.pt = vtypes, list(ptypes)
+    def __init__(self, vt, pt=()):
+        self.vt, self.pt = vt, list(pt)
 
     def typeof(self, a):
         if a[0] == "v":
@@ -89,26 +96,14 @@ class TypeEnv:
             return self.pt[a[1]]
         if a[0] == "f":
             return children(self.typeof(a[1]))[a[2]][1]
-        if a[0] == "d":
-            t = self.typeof(a[1])
-            assert t.startswith("*"), (a, t)
-            return t[1:]
-        raise ValueError(a)
-
-
-def a_ser(a):
-    if a[0] == "v":
-        return "V%d" % a[2] if len(a) > 2 else "V?" + a[1]
-    raise ValueError
-
-
-def vname(loc):
-    return VARS[loc][0] if loc < len(VARS) else "c%d" % loc
+        t = self.typeof(a[1])
+        assert t.startswith("*"), (a, t)
+        return t[1:]
 
 
 def render(a, env, sty, pnames=None):
-    """Cb text of an access expression. sty: dict with 'arrow' (True: p->m, False: (*p).m), 'ivar' (index through
-    the int variables i0..i2 instead of literals)."""
+    """Cb text of an access expression. sty: 'arrow' (p->m instead of (*p).m), 'ivar' (index through the int
+    variables i0..i2 instead of literals)."""
     k = a[0]
     if k == "v":
         return vname(a[1])
@@ -116,43 +111,19 @@ def render(a, env, sty, pnames=None):
         return pnames[a[1]]
     if k == "d":
         return "(*%s)" % render(a[1], env, sty, pnames)
-    if k == "f":
-        base, idx = a[1], a[2]
-        bt = env.typeof(base)
-        if bt in ARRAYS:
-            ix = ("i%d" % idx) if sty.get("ivar") else str(idx)
-            return "%s[%s]" % (render(base, env, sty, pnames), ix)
-        name = STRUCTS[bt][idx][0]
-        if base[0] == "d" and sty.get("arrow", True):
-            return "%s->%s" % (render(base[1], env, sty, pnames), name)
-        return "%s.%s" % (render(base, env, sty, pnames), name)
-    raise ValueError(a)
-
-
-def feat(a, env):
-    """feature tuple of an access expression, used by avoidance predicates and histograms:
-    (root kind, member chain as string)"""
-    chain = []
-    x = a
-    while x[0] == "f":
-        bt = env.typeof(x[1])
-        chain.append("[]" if bt in ARRAYS else STRUCTS[bt][x[2]][0])
-        x = x[1]
-    chain.reverse()
-    if x[0] == "v":
-        root = "name"
-    elif x[0] == "par":
-        root = "par"
-    else:
-        inner = x[1]
-        root = "deref(%s)" % feat(inner, env)[0] if inner[0] != "v" and inner[0] != "par" else ("*" + inner[0])
-    return root, ".".join(chain)
+    base, idx = a[1], a[2]
+    bt = env.typeof(base)
+    if bt in ARRAYS:
+        ix = ("i%d" % idx) if sty.get("ivar") else str(idx)
+        return "%s[%s]" % (render(base, env, sty, pnames), ix)
+    name = STRUCTS[bt][idx][0]
+    if base[0] == "d" and sty.get("arrow", True):
+        return "%s->%s" % (render(base[1], env, sty, pnames), name)
+    return "%s.%s" % (render(base, env, sty, pnames), name)
 
 
 # ------------------------------------------------------------------ shadow heap (the property's own reading, in Python)
 # heap: list of trees (nested lists; leaves int, or pointer = None | (loc, path-tuple)). cell = (loc, path-tuple)
-import copy as _copy
-
 
 class Bad(Exception):
     pass
@@ -190,7 +161,7 @@ def flat(v):
 class Shadow:
     """Spec (mech=False): T&, array parameters and self denote the argument's cell.
     Mech (mech=True): array parameters and self are copy-in / write-through / copy-back
-    (call_impl.cpp:4886-4945, cleanup.cpp:155, statement_executor.cpp:720, call_impl.cpp:6056)."""
+    (call_impl.cpp:4886-4945 and 6280, cleanup.cpp:155, statement_executor.cpp:720, call_impl.cpp:4326 and 6056)."""
 
     def __init__(self, mech=False):
         self.h = [zero(t) for _, t in VARS]
@@ -247,6 +218,8 @@ class Shadow:
         k = o["k"]
         if k in ("w", "cp", "addr", "rd"):
             self.sop(o, [])
+        elif k == "nop":                             # placeholder left by the shrinker: allocates like the op it replaces
+            self.h += [0] * o["alloc"]
         elif k == "decl":
             v = self.read(self.resolve(o["s"], []))
             self.h.append(v)
@@ -254,21 +227,19 @@ class Shadow:
             fr, thru, back = [], [], []
             for prm in o["params"]:
                 md = prm["mode"]
-                if md == "val":
+                if md == "val" or md == "pval":      # value (struct/array tree, or the value of a pointer variable)
                     self.h.append(self.read(self.resolve(prm["arg"], [])))
                     fr.append((len(self.h) - 1, ()))
-                elif md == "ptr":           # pointer passed by value: &arg
+                elif md == "ptr":                    # &arg passed to a T* parameter
                     self.h.append(self.resolve(prm["arg"], []))
-                    fr.append((len(self.h) - 1, ()))
-                elif md == "pval":          # value of a pointer variable passed by value
-                    self.h.append(self.read(self.resolve(prm["arg"], [])))
                     fr.append((len(self.h) - 1, ()))
                 elif md == "ref":
                     fr.append(self.resolve(prm["arg"], []))
-                elif not self.mech:          # arr / self in Spec: the argument's cell (a dummy location keeps numbering equal)
+                    self.h.append(0)                 # dummy: keeps location numbering independent of the mode
+                elif not self.mech:                  # arr / self in Spec: the argument's cell
                     fr.append(self.resolve(prm["arg"], []))
                     self.h.append(0)
-                else:                        # arr / self in Mech: copy in
+                else:                                # arr / self in Mech: copy in
                     c = self.resolve(prm["arg"], [])
                     self.h.append(self.read(c))
                     tmp = len(self.h) - 1
@@ -293,7 +264,7 @@ class Shadow:
 
 
 def shadow_run(case, mech):
-    """transcript (list of int lists) or transcript + ['ERR'] when an op cannot be executed"""
+    """transcript (list of int lists); ends with ['ERR', why] when an op cannot be executed"""
     sh = Shadow(mech)
     try:
         for o in case["ops"]:
@@ -301,3 +272,563 @@ def shadow_run(case, mech):
     except Bad as e:
         sh.out.append(["ERR", str(e)])
     return sh.out
+
+
+# ------------------------------------------------------------------ signatures of access forms
+def cell_desc(c, vt):
+    """describe a cell by the declared variable kind and member chain: 'P', 'PS[]', 'P.inner', 'A3[]', 'tmp' ..."""
+    loc, p = c
+    if loc not in vt:
+        return "tmp"
+    t = vt[loc]
+    s = t
+    for k in p:
+        if t in ARRAYS:
+            s += "[]"
+            t = ARRAYS[t][0]
+        else:
+            nm, t2 = STRUCTS[t][k]
+            s += "." + nm
+            t = t2
+    return s
+
+
+def expr_sig(a, env, sh, fr, pmodes=None):
+    """signature of an access form: root kind + member chain; derefs show what the pointer points to."""
+    k = a[0]
+    if k == "v":
+        return env.vt[a[1]]
+    if k == "par":
+        return "par<%s %s>" % (pmodes[a[1]], env.pt[a[1]])
+    if k == "d":
+        try:
+            tgt = cell_desc(sh.resolve(a, fr), env.vt)
+        except Bad:
+            tgt = "?"
+        return "*(%s=>%s)" % (expr_sig(a[1], env, sh, fr, pmodes), tgt)
+    bt = env.typeof(a[1])
+    base = expr_sig(a[1], env, sh, fr, pmodes)
+    if bt in ARRAYS:
+        return base + "[]"
+    return base + "." + STRUCTS[bt][a[2]][0]
+
+
+# ------------------------------------------------------------------ generator
+class Gen:
+    """Generates one history while running the Spec shadow (so that only executable ops are produced)."""
+
+    def __init__(self, rng, allow, place="local", maxcopies=3):
+        self.rng, self.allow, self.place = rng, allow, place
+        self.sh = Shadow(False)
+        self.vt = {i: t for i, (_, t) in enumerate(VARS)}
+        self.ops = []
+        self.sigs = []          # signatures used (histogram)
+        self.avoided = 0
+        self.next_val = 100
+        self.next_id = 0
+        self.next_fid = 0
+        self.maxcopies = maxcopies
+
+    # ---- candidates
+    def exprs_of(self, ty, env, fr, in_callee):
+        """all access expressions of type ty available in the context (main, or a callee with frame fr)"""
+        sh = self.sh
+        roots = {}          # type -> list of aexp
+
+        def add(t, a):
+            roots.setdefault(t, []).append(a)
+        if not in_callee or self.place == "global":
+            for loc, t in self.vt.items():
+                if not in_callee or loc < NV:
+                    add(t, ("v", loc))
+        if in_callee:
+            for i, t in enumerate(env.pt):
+                add(t, ("par", i))
+        # pointer dereferences (only valid, non-null pointers)
+        for t in ("*P", "*In", "*int"):
+            for pa in list(roots.get(t, [])):
+                try:
+                    v = sh.read(sh.resolve(pa, fr))
+                except Bad:
+                    continue
+                if isinstance(v, tuple):
+                    add(t[1:], ("d", pa))
+        # close under member selection: PS -> P -> In/A3 -> int
+        for t in ("PS", "P", "In", "A3"):
+            for a in list(roots.get(t, [])):
+                for k, (_, ct) in enumerate(children(t)):
+                    add(ct, ("f", a, k))
+        return roots.get(ty, [])
+
+    def sty(self):
+        return {"arrow": self.rng.random() < 0.6, "ivar": self.rng.random() < 0.3}
+
+    def pick(self, role, ty, env, fr, pmodes, in_callee, ctx, pred=None):
+        cands = self.exprs_of(ty, env, fr, in_callee)
+        self.rng.shuffle(cands)
+        for a in cands[:16]:
+            if pred and not pred(a):
+                continue
+            st = self.sty()
+            sig = self.sig(ctx, role, a, env, fr, pmodes, st)
+            if self.allow(sig):
+                return a, st, sig
+            self.avoided += 1
+        return None
+
+    def sig(self, ctx, role, a, env, fr, pmodes, st):
+        es = expr_sig(a, env, self.sh, fr, pmodes)
+        fl = ""
+        if "*(" in es:
+            fl += ">" if st.get("arrow") else "."
+        if "[]" in es and st.get("ivar"):
+            fl += "i"
+        return "%s%s|%s|%s|%s" % (ctx, "G" if self.place == "global" else "L", role, es, fl)
+
+    def val(self):
+        self.next_val += 1
+        return self.next_val
+
+    # ---- simple ops
+    def gen_sop(self, env, fr, pmodes, in_callee, ctx, kinds):
+        r = self.rng
+        kind = r.choice(kinds)
+        if kind == "w":
+            p = self.pick("w", "int", env, fr, pmodes, in_callee, ctx)
+            if not p:
+                return None
+            return {"k": "w", "a": p[0], "z": self.val(), "sty": p[1], "sigs": [p[2]]}
+        if kind == "cp":
+            ty = r.choice(["P", "P", "In", "A3"])
+            d = self.pick("cpd", ty, env, fr, pmodes, in_callee, ctx)
+            if not d:
+                return None
+            dc = self.sh.resolve(d[0], fr)
+
+            def disjoint(a):
+                c = self.sh.resolve(a, fr)
+                return not (c[0] == dc[0] and (c[1][:len(dc[1])] == dc[1] or dc[1][:len(c[1])] == c[1]))
+            s = self.pick("cps", ty, env, fr, pmodes, in_callee, ctx, pred=disjoint)
+            if not s:
+                return None
+            return {"k": "cp", "d": d[0], "s": s[0], "ty": ty, "sty": d[1], "sty2": s[1], "sigs": [d[2], s[2]]}
+        if kind == "addr":
+            ty = r.choice(["P", "In", "int"])
+            p = self.pick("addrp", "*" + ty, env, fr, pmodes, in_callee, ctx, pred=lambda a: a[0] == "v")
+            if not p:
+                return None
+            t = self.pick("addr", ty, env, fr, pmodes, in_callee, ctx,
+                          pred=lambda a: self.sh.resolve(a, fr)[0] in self.vt)
+            if not t:
+                return None
+            return {"k": "addr", "p": p[0], "t": t[0], "sty": t[1], "sigs": [t[2]]}
+        if kind == "rd":
+            form = r.choice(["plain", "plain", "interp", "tmp"])
+            n = r.randint(1, 5)
+            es, sigs, stys = [], [], []
+            for _ in range(n):
+                p = self.pick("r-" + form, "int", env, fr, pmodes, in_callee, ctx)
+                if p:
+                    es.append(p[0]); stys.append(p[1]); sigs.append(p[2])
+            if not es:
+                return None
+            self.next_id += 1
+            return {"k": "rd", "id": self.next_id, "as": es, "form": form, "stys": stys, "sigs": sigs}
+        raise ValueError(kind)
+
+    def read_all(self, forms=("plain",)):
+        """reads of every scalar cell of the named variables through the plain path (one rd op per variable)"""
+        env = TypeEnv(self.vt)
+        out = []
+        for loc, t in sorted(self.vt.items()):
+            if t.startswith("*"):
+                continue
+            form = self.rng.choice(forms)
+            es, sigs, stys = [], [], []
+            for p in leaves(t):
+                a = ("v", loc)
+                for k in p:
+                    a = ("f", a, k)
+                st = {"arrow": True, "ivar": False}
+                sg = self.sig("M", "r-" + form, a, env, [], None, st)
+                if self.allow(sg):
+                    es.append(a); stys.append(st); sigs.append(sg)
+            if es:
+                self.next_id += 1
+                out.append({"k": "rd", "id": self.next_id, "as": es, "form": form, "stys": stys, "sigs": sigs})
+        return out
+
+    def gen_call(self, force=None):
+        r = self.rng
+        env0 = TypeEnv(self.vt)
+        nparams = r.choice([1, 1, 1, 2, 2, 3])
+        params, fr_types, pmodes = [], [], []
+        is_method = r.random() < 0.3
+        for i in range(nparams):
+            if i == 0 and is_method:
+                ty = r.choice(["P", "P", "In"])
+                p = self.pick("recv", ty, env0, [], None, False, "M")
+                if not p:
+                    return None
+                params.append({"mode": "self", "ty": ty, "arg": p[0], "sty": p[1], "sig": p[2]})
+                fr_types.append(ty); pmodes.append("self")
+                continue
+            mode = r.choice(["val", "ref", "ptr", "pval", "arr", "val", "ref", "ptr"])
+            if mode == "arr":
+                ty = r.choice(["A3", "A3", "PS"])
+            elif mode in ("ptr", "pval"):
+                ty = r.choice(["P", "P", "In", "int"])
+            elif mode == "ref":
+                ty = r.choice(["P", "P", "In", "int"])
+            else:
+                ty = r.choice(["P", "P", "In"])
+            if mode == "pval":
+                p = self.pick("argpval", "*" + ty, env0, [], None, False, "M",
+                              pred=lambda a: isinstance(self.sh.read(self.sh.resolve(a, [])), tuple))
+            else:
+                p = self.pick("arg" + mode, ty, env0, [], None, False, "M")
+            if not p:
+                return None
+            params.append({"mode": mode, "ty": ty, "arg": p[0], "sty": p[1], "sig": p[2]})
+            fr_types.append(("*" + ty) if mode in ("ptr", "pval") else ty)
+            pmodes.append(mode)
+        fid = self.next_fid
+        self.next_fid += 1
+        call = {"k": "call", "fid": fid, "params": params, "body": [], "ret": None,
+                "sigs": [p["sig"] for p in params]}
+        # set up the callee frame in a scratch shadow (parameter locations allocated, empty body)
+        trial = copy.deepcopy(self.sh)
+        nloc0 = len(trial.h)
+        trial.op(call)
+        fr = []
+        loc = nloc0
+        for prm in params:
+            if prm["mode"] in ("val", "pval", "ptr"):
+                fr.append((loc, ()))
+            else:
+                fr.append(self.sh.resolve(prm["arg"], []))
+            loc += 1
+        saved = self.sh
+        self.sh = trial
+        env = TypeEnv(self.vt, fr_types)
+        ctx = "S" if is_method else "F"
+        body = []
+        for _ in range(r.randint(1, 4)):
+            s = self.gen_sop(env, fr, pmodes, True, ctx, ["w", "w", "w", "rd", "rd", "cp"])
+            if s:
+                try:
+                    self.sh.sop(s, fr)
+                except Bad:
+                    continue
+                body.append(s)
+        ret = None
+        if r.random() < 0.3:
+            ty = r.choice(["P", "P", "In"])
+            e = self.pick("ret", ty, env, fr, pmodes, True, ctx)
+            if e:
+                if r.random() < 0.3 and sum(1 for l in self.vt if l >= NV) < self.maxcopies:
+                    ret = {"e": e[0], "d": None, "ty": ty, "sty": e[1], "sigs": [e[2]]}
+                else:
+                    self.sh = saved
+                    d = self.pick("retd", ty, env0, [], None, False, "M")
+                    self.sh = trial
+                    if d:
+                        ret = {"e": e[0], "d": d[0], "ty": ty, "sty": e[1], "sty2": d[1], "sigs": [e[2], d[2]]}
+        self.sh = saved
+        if not body and not ret:
+            return None
+        call["body"] = body
+        call["ret"] = ret
+        for s in body:
+            call["sigs"] += s["sigs"]
+        if ret:
+            call["sigs"] += ret["sigs"]
+        return call
+
+    def emit(self, o):
+        """run op on the shadow; register declared variables; append"""
+        nloc = len(self.sh.h)
+        self.sh.op(o)
+        if o["k"] == "decl":
+            self.vt[nloc] = o["ty"]
+            o["loc"] = nloc
+        if o["k"] == "call" and o["ret"] and o["ret"]["d"] is None:
+            self.vt[len(self.sh.h) - 1] = o["ret"]["ty"]
+            o["ret"]["loc"] = len(self.sh.h) - 1
+        self.ops.append(o)
+        self.sigs += o.get("sigs", [])
+
+    def step(self, k):
+        r = self.rng
+        env = TypeEnv(self.vt)
+        if k == "call":
+            o = self.gen_call()
+            if o and not self.spec_eq_mech(o):
+                self.avoided += 1
+                o = None
+        elif k == "decl":
+            if sum(1 for l in self.vt if l >= NV) >= self.maxcopies:
+                return False
+            ty = r.choice(["P", "P", "In"])
+            p = self.pick("decl", ty, env, [], None, False, "M")
+            o = {"k": "decl", "s": p[0], "ty": ty, "sty": p[1], "sigs": [p[2]]} if p else None
+        else:
+            o = self.gen_sop(env, [], None, False, "M", [k])
+        if o is None:
+            return False
+        try:
+            self.emit(o)
+        except Bad:
+            return False
+        return True
+
+    def history(self, n, kinds=None):
+        kinds = kinds or ["w"] * 6 + ["cp"] * 3 + ["addr"] * 2 + ["rd"] * 5 + ["call"] * 5 + ["decl"]
+        tries = 0
+        while len(self.ops) < n and tries < 6 * n:
+            tries += 1
+            self.step(self.rng.choice(kinds))
+
+    def spec_eq_mech(self, call):
+        """the call behaves the same under aliasing and under copy-in/write-through/copy-back"""
+        s1 = copy.deepcopy(self.sh); s1.mech = False; s1.out = []
+        s2 = copy.deepcopy(self.sh); s2.mech = True; s2.out = []
+        try:
+            s1.op(call)
+            s2.op(call)
+        except Bad:
+            return False
+        n = len(self.sh.h)
+        return s1.out == s2.out and s1.h[:n] == s2.h[:n] and \
+            (not call["ret"] or s1.h[-1] == s2.h[-1])
+
+
+# ------------------------------------------------------------------ printer: history -> Cb program
+def r_sop(s, env, pnames, ind):
+    k = s["k"]
+    if k == "w":
+        return ["%s%s = %d;" % (ind, render(s["a"], env, s["sty"], pnames), s["z"])]
+    if k == "cp":
+        return ["%s%s = %s;" % (ind, render(s["d"], env, s["sty"], pnames), render(s["s"], env, s.get("sty2", s["sty"]), pnames))]
+    if k == "addr":
+        return ["%s%s = &%s;" % (ind, render(s["p"], env, {}, pnames), render(s["t"], env, s["sty"], pnames))]
+    if k == "rd":
+        es = [render(a, env, st, pnames) for a, st in zip(s["as"], s["stys"])]
+        if s["form"] == "plain":
+            return ["%sprintln(%d, %s);" % (ind, s["id"], ", ".join(es))]
+        if s["form"] == "interp":
+            return ['%sprintln("%d %s");' % (ind, s["id"], " ".join("{%s}" % e for e in es))]
+        out = []
+        for j, e in enumerate(es):
+            out.append("%sint t%d_%d = %s;" % (ind, s["id"], j, e))
+        out.append("%sprintln(%d, %s);" % (ind, s["id"], ", ".join("t%d_%d" % (s["id"], j) for j in range(len(es)))))
+        return out
+    raise ValueError(k)
+
+
+def to_cb(case):
+    ops = case["ops"]
+    vt = {i: t for i, (_, t) in enumerate(VARS)}
+    for o in ops:
+        if o["k"] == "decl":
+            vt[o["loc"]] = o["ty"]
+        if o["k"] == "call" and o["ret"] and o["ret"]["d"] is None:
+            vt[o["ret"]["loc"]] = o["ret"]["ty"]
+    env0 = TypeEnv(vt)
+    funcs, methods = [], {"P": [], "In": []}
+    main = []
+    for o in ops:
+        k = o["k"]
+        if k in ("w", "cp", "addr", "rd"):
+            main += r_sop(o, env0, None, "  ")
+        elif k == "nop":
+            pass
+        elif k == "decl":
+            main.append("  %s c%d = %s;" % (o["ty"], o["loc"], render(o["s"], env0, o["sty"])))
+        elif k == "call":
+            prm = o["params"]
+            is_m = prm[0]["mode"] == "self"
+            pt, pn, decls, args = [], [], [], []
+            for i, p in enumerate(prm):
+                md, ty = p["mode"], p["ty"]
+                if md == "self":
+                    pt.append(ty); pn.append("self")
+                    continue
+                pn.append("q%d" % i)
+                if md in ("ptr", "pval"):
+                    pt.append("*" + ty); decls.append("%s* q%d" % (ty, i))
+                    args.append(("&" if md == "ptr" else "") + render(p["arg"], env0, p["sty"]))
+                elif md == "ref":
+                    pt.append(ty); decls.append("%s& q%d" % (cb_type(ty), i)); args.append(render(p["arg"], env0, p["sty"]))
+                else:
+                    pt.append(ty); decls.append("%s q%d" % (cb_type(ty), i)); args.append(render(p["arg"], env0, p["sty"]))
+            env = TypeEnv(vt, pt)
+            body = []
+            for s in o["body"]:
+                body += r_sop(s, env, pn, "  ")
+            ret = o["ret"]
+            rty = "void"
+            if ret:
+                rty = ret["ty"]
+                body.append("  return %s;" % render(ret["e"], env, ret["sty"], pn))
+            if is_m:
+                name = "m%d" % o["fid"]
+                sig = "%s %s(%s)" % (rty, name, ", ".join(decls))
+                methods[prm[0]["ty"]].append((sig, body))
+                ra = prm[0]["arg"]
+                if ra[0] == "d" and prm[0]["sty"].get("arrow", True):
+                    callee = "%s->%s" % (render(ra[1], env0, prm[0]["sty"]), name)
+                else:
+                    callee = "%s.%s" % (render(ra, env0, prm[0]["sty"]), name)
+            else:
+                name = "f%d" % o["fid"]
+                funcs.append("%s %s(%s) {\n%s\n}" % (rty, name, ", ".join(decls), "\n".join(body)))
+                callee = name
+            ce = "%s(%s)" % (callee, ", ".join(args))
+            if not ret:
+                main.append("  %s;" % ce)
+            elif ret["d"] is None:
+                main.append("  %s c%d = %s;" % (ret["ty"], ret["loc"], ce))
+            else:
+                main.append("  %s = %s;" % (render(ret["d"], env0, ret.get("sty2", {})), ce))
+    out = ["struct In { int v; int w; };", "struct P { int s; In inner; int[3] arr; };"]
+    for ty in ("In", "P"):
+        if methods[ty]:
+            out.append("interface M%s {" % ty)
+            out += ["  %s;" % sig for sig, _ in methods[ty]]
+            out.append("};")
+            out.append("impl M%s for %s {" % (ty, ty))
+            for sig, body in methods[ty]:
+                out.append("  %s {" % sig)
+                out += ["  " + b for b in body]
+                out.append("  }")
+            out.append("};")
+    out.append("int i0 = 0; int i1 = 1; int i2 = 2;")
+    decls = []
+    for n, t in VARS:
+        if t.startswith("*"):
+            decls.append("%s %s = nullptr;" % (cb_type(t), n))
+        else:
+            decls.append("%s %s;" % (cb_type(t), n))
+    if case.get("place") == "global":
+        out += decls
+        out += funcs
+        out.append("void main() {")
+    else:
+        out += funcs
+        out.append("void main() {")
+        out += ["  " + d for d in decls]
+    out += main
+    out.append("}")
+    return "\n".join(out) + "\n"
+
+
+def parse_transcript(stdout):
+    out = []
+    for l in stdout.split("\n"):
+        l = l.strip()
+        if not l:
+            continue
+        try:
+            out.append([int(x) for x in l.split()])
+        except ValueError:
+            out.append(["?", l[:80]])
+    return out
+
+
+# ------------------------------------------------------------------ shrinking
+def op_alloc(o):
+    if o["k"] == "decl":
+        return 1
+    if o["k"] == "call":
+        return len(o["params"]) + (1 if o["ret"] and o["ret"]["d"] is None else 0)
+    if o["k"] == "nop":
+        return o["alloc"]
+    return 0
+
+
+def case_sigs(case):
+    out = []
+    for o in case["ops"]:
+        out += o.get("sigs", [])
+    return sorted(set(out))
+
+
+def shrink_case(case, fails, budget=400):
+    """greedy deletion (ops -> nop keeping the location numbering, callee body statements, single read
+    expressions) while `fails(case)` stays true."""
+    cur = copy.deepcopy(case)
+    used = [0]
+
+    def test(c):
+        if used[0] >= budget:
+            return False
+        used[0] += 1
+        sh = shadow_run(c, True)
+        if sh and sh[-1] and sh[-1][0] == "ERR":
+            return False
+        return fails(c)
+
+    def resig(o):
+        if o["k"] == "rd":
+            return
+    changed = True
+    while changed and used[0] < budget:
+        changed = False
+        # chunks of ops first, then single ops
+        n = len(cur["ops"])
+        for size in (8, 4, 2, 1):
+            i = 0
+            while i < len(cur["ops"]):
+                seg = cur["ops"][i:i + size]
+                if all(o["k"] == "nop" for o in seg):
+                    i += size
+                    continue
+                cand = copy.deepcopy(cur)
+                cand["ops"][i:i + size] = [{"k": "nop", "alloc": op_alloc(o)} for o in seg]
+                if test(cand):
+                    cur = cand
+                    changed = True
+                i += size
+        for i, o in enumerate(cur["ops"]):
+            if o["k"] == "call":
+                j = 0
+                while j < len(cur["ops"][i]["body"]):
+                    cand = copy.deepcopy(cur)
+                    del cand["ops"][i]["body"][j]
+                    if test(cand):
+                        cur = cand
+                        changed = True
+                    else:
+                        j += 1
+                if cur["ops"][i]["ret"] and cur["ops"][i]["ret"]["d"] is not None:
+                    cand = copy.deepcopy(cur)
+                    cand["ops"][i]["ret"] = None
+                    if test(cand):
+                        cur = cand
+                        changed = True
+            sops = [o] if o["k"] == "rd" else ([s for s in o["body"] if s["k"] == "rd"] if o["k"] == "call" else [])
+            for si, s in enumerate(sops):
+                j = 0
+                while len(s["as"]) > 1 and j < len(s["as"]):
+                    cand = copy.deepcopy(cur)
+                    t = cand["ops"][i] if o["k"] == "rd" else [x for x in cand["ops"][i]["body"] if x["k"] == "rd"][si]
+                    for key in ("as", "stys", "sigs"):
+                        del t[key][j]
+                    if test(cand):
+                        cur = cand
+                        s = cur["ops"][i] if o["k"] == "rd" else [x for x in cur["ops"][i]["body"] if x["k"] == "rd"][si]
+                        changed = True
+                    else:
+                        j += 1
+    # refresh per-op signature lists of calls
+    for o in cur["ops"]:
+        if o["k"] == "call":
+            o["sigs"] = [p["sig"] for p in o["params"]]
+            for s in o["body"]:
+                o["sigs"] += s["sigs"]
+            if o["ret"]:
+                o["sigs"] += o["ret"]["sigs"]
+    cur["ops"] = [o for i, o in enumerate(cur["ops"])
+                  if not (o["k"] == "nop" and o["alloc"] == 0)]
+    return cur
